@@ -250,16 +250,24 @@ func ParseTransactionError(v any) (map[string]any, error) {
 		if err != nil {
 			return nil, err
 		}
-		// TODO: is this uint8 or uvarint or something else?
-		errorCode, err := dec.ReadUint8()
-		if err != nil {
-			return nil, err
-		}
 		transactionErrorTypeName, ok := TransactionErrorType_name[int32(transactionErrorType)]
 		if !ok {
 			return nil, fmt.Errorf("unknown transaction error type: %d", transactionErrorType)
 		}
 		transactionErrorTypeName = bin.ToPascalCase(transactionErrorTypeName)
+		if dec.Remaining() == 0 && TransactionErrorType(transactionErrorType) != TransactionErrorType_INSTRUCTION_ERROR {
+			// Most transaction errors (AccountInUse, InsufficientFundsForFee, BlockhashNotFound, ...) carry
+			// no payload: nothing follows the type. Failing here made every such failed transaction look
+			// successful ("err": null).
+			return map[string]any{
+				transactionErrorTypeName: []any{},
+			}, nil
+		}
+		// TODO: is this uint8 or uvarint or something else?
+		errorCode, err := dec.ReadUint8()
+		if err != nil {
+			return nil, err
+		}
 
 		switch TransactionErrorType(transactionErrorType) {
 		case TransactionErrorType_INSTRUCTION_ERROR:
